@@ -242,6 +242,9 @@ def run(ctx, report: Report) -> None:
                     r4.violation(f'{mn}.{q} debug-ifexp {unparse(n)[:40]}', mod.where(n),
                                  f'{mn}.{q}: value `{unparse(n)[:60]}` depends on the DEBUG flag')
     # flags is part of the cache key (so a DEBUG compile is not served to a non-DEBUG caller): see C15-R4
+    # with and without DEBUG the top-level list is handed to the parser the same way (index 0, no private parser flags)
+    from .sem import pattern_handover_table
+    pattern_handover_table(ctx, r4)
 
     # ---- R5 ----------------------------------------------------------------------------------------------
     r5 = report.rule('C20-R5', 'SelectorSyntaxError derives its position whenever pattern and index are given', floor=2)
